@@ -45,8 +45,8 @@ CLAIMED = {
     "C16": ("batch", "PBT over budgets: MaxExpressions(n) relative to the measured need N, diverging grammars, all option combinations; reference run under the same budget",
             "Bounded generated search over grammars (incl. diverging repetitions) x inputs x budgets x options; returns within the watchdog, n>=N identical result, n<N error reported, event/ExprCnt bounds, exact error list vs. the reference under the same budget (non-memoized).",
             "Termination is decided by a generous watchdog (20 s per Parse, confirmed twice in isolation). Known finding KF-C16-MEMOZERO excluded by an oracle-side predicate.", "DESIGN.md 3/C16"),
-    "C20": ("regen", "exhaustive regeneration of all checked-in artifacts (part b); part a (front-end agreement on the bootstrap subset) by PBT",
-            "Part b enumerates the finite set of Makefile generation rules completely and compares bytes; the chain fixpoint is checked.",
+    "C20": ("regen", "differential PBT of the two front-ends on generated grammars of the bootstrap subset (part a) + exhaustive regeneration of all checked-in artifacts (part b)",
+            "Part a: rapid-drawn grammars of the bootstrap subset, spelled with drawn quotings/escapes/operators, parsed by bootstrap.Parser and by the generated front-end, ASTs compared structurally. Part b enumerates the finite set of Makefile generation rules completely and compares bytes; the chain fixpoint is checked.",
             "Trusted: the small make-subset interpreter; the Go toolchain.", "DESIGN.md 3/C20"),
     "C04": ("batch", "PBT with a validity predicate on the generated files: gofmt fixpoint, batch compile, go vet, package init, source inspection of methods vs. computed label scopes; round-robin over all 64 flag combinations",
             "Bounded generated search over grammars with adversarial rule/label names (plus one grammar with every accepted Unicode class) x all 64 flag combinations x receiver names; each generated file must be gofmt-formatted, compile, vet clean, initialise, and carry exactly one method per code block with exactly the labels in scope.",
@@ -63,6 +63,9 @@ CLAIMED = {
     "C19": ("tool", "metamorphic PBT: K repeated in-process generations (map iteration order re-randomised each time) and repeated runs of the command must be byte-identical",
             "Bounded generated search over grammars with several cycles / leader candidates / mutually nullable rules / optimizer bait x flag sets; 12 repeated builds in one process and 3 runs of the command give identical bytes or the identical diagnostic.",
             "Trusted: Go's randomised map iteration as the source of order variation (12 repeats per case).", "DESIGN.md 3/C19"),
+    "C03": ("tool", "round-trip PBT: construction round trip (spelled AST -> front-end -> same AST incl. positions) and print round trip on every accepted text; native fuzzing of the print round trip",
+            "Bounded generated search over ASTs of all node kinds x rapid-drawn concrete spellings (layout, comments, terminators, operators, quotings, escapes, class forms, parentheses); the front-end must return exactly the drawn AST with the position of every node's first token; every accepted text (spelled, mutated, repository grammars, fuzz-found) must survive print -> parse unchanged.",
+            "Trusted: the speller's reading of the documented syntax (doc.go, grammar/pigeon.peg) and its position bookkeeping; the AST dump hook is a test file compiled with a copy of package main.", "DESIGN.md 3/C03"),
 }
 
 NOT_YET = {
